@@ -116,10 +116,8 @@ class J1939_21:
             if dest_address == ParameterGroupNumber.Address.GLOBAL:
                 if pgn.is_pdu1_format:
                     pgn.pdu_specific = 0  # the PGN of a PDU1 message does not contain the (global) destination address
-                # send BAM
-                self.__send_tp_bam(src_address, priority, pgn.value, message_size, num_packets)
-
                 # init new buffer for this connection
+                # (registered before the BAM is written: a concurrent send_pgn of this source must see it)
                 self._snd_buffer[buffer_hash] = {
                         "pgn": pgn.value,
                         "priority": priority,
@@ -132,6 +130,10 @@ class J1939_21:
                         'dest_address' : ParameterGroupNumber.Address.GLOBAL,
                         'next_packet_to_send' : 0,
                     }
+                # send BAM
+                self.__send_tp_bam(src_address, priority, pgn.value, message_size, num_packets)
+                # the interval to the first data packet counts from the end of the write
+                self._snd_buffer[buffer_hash]['deadline'] = time.time() + self._minimum_tp_bam_dt_interval
             else:
                 # send RTS/CTS
                 pgn.pdu_specific = 0  # this is 0 for peer-to-peer transfer
